@@ -35,7 +35,7 @@ def rfc_hkdf_expand_blocks(prk, info, n):
 
 
 @obligation("C16", "hkdf_extract_expand", timeout=1500,
-            bound="salt / IKM / PRK / info symbolic byte strings (|.| <= 8, contents only flow into HMAC), output length symbolic 0..8160 with ceil(L/32) <= 3 (quick) / <= 8 (thorough) blocks unrolled")
+            bound="salt / IKM / PRK / info symbolic byte strings (every length 0..1024, contents only flow into HMAC), output length symbolic 0..8160 with ceil(L/32) <= 3 (quick) / <= 8 (thorough) blocks unrolled")
 def hkdf(rep, tier):
     h = mod("py_ecc.bls.hash")
     rep.encoded(h.hkdf_extract, h.hkdf_expand)
@@ -46,8 +46,8 @@ def hkdf(rep, tier):
     # extract
     def run_x(ctx):
         ctx.hash_uf = True
-        salt = SymBytes.var("salt", 0, 8)
-        ikm = SymBytes.var("ikm", 0, 8)
+        salt = SymBytes.var("salt", 0, 1024)
+        ikm = SymBytes.var("ikm", 0, 1024)
         return salt, ikm, h.hkdf_extract(salt, ikm)
 
     def on_x(pth):
@@ -57,7 +57,14 @@ def hkdf(rep, tier):
             return
         salt, ikm, out = pth.value
         g, m = pth.ctx.prove(SymBytes.lift(out).t == HM()(salt.t, ikm.t), timeout_ms=60000)
-        require(rep, g, "hkdf_extract(salt, IKM) = HMAC-SHA256(key = salt, msg = IKM)", pth.decisions, rp)
+        rpx = rp
+        if g == "sat":
+            try:
+                rpx = {"kind": "c16_hkdf", "args": {"salt_len": m.eval(z3.Length(salt.t), model_completion=True).as_long(),
+                                                   "ikm_len": m.eval(z3.Length(ikm.t), model_completion=True).as_long()}}
+            except Exception:
+                pass
+        require(rep, g, "hkdf_extract(salt, IKM) = HMAC-SHA256(key = salt, msg = IKM) for salts and IKMs of every length", pth.decisions, rpx)
     core.explore(run_x, on_path=on_x)
 
     seen = {}
@@ -66,8 +73,8 @@ def hkdf(rep, tier):
         ctx.hash_uf = True
         ctx.sym_bytearray = True
         ctx.unwind = nmax
-        prk = SymBytes.var("prk", 0, 8)
-        info = SymBytes.var("info", 0, 8)
+        prk = SymBytes.var("prk", 0, 1024)
+        info = SymBytes.var("info", 0, 1024)
         L = SymZ.var("L", 0, 8160)
         return prk, info, L, h.hkdf_expand(prk, info, L)
 
@@ -101,7 +108,7 @@ def hkdf(rep, tier):
 
 
 @obligation("C16", "keygen_matches_draft_v4", timeout=1500,
-            bound="IKM, key_info symbolic byte strings (|.| <= 8, opaque), the SK == 0 retry loop unrolled 2 times (the uninterpreted HMAC makes SK = 0 feasible), each iteration identical in form")
+            bound="IKM, key_info symbolic byte strings (every length 0..1024, opaque), the SK == 0 retry loop unrolled 2 times (the uninterpreted HMAC makes SK = 0 feasible), each iteration identical in form")
 def keygen(rep, tier):
     cs = mod("py_ecc.bls.ciphersuites")
     h = mod("py_ecc.bls.hash")
@@ -121,8 +128,8 @@ def keygen(rep, tier):
         ctx.hash_uf = True
         ctx.sym_bytearray = True
         ctx.max_keygen_iters = iters
-        ikm = SymBytes.var("ikm", 0, 8)
-        info = SymBytes.var("key_info", 0, 8)
+        ikm = SymBytes.var("ikm", 0, 1024)
+        info = SymBytes.var("key_info", 0, 1024)
         # bound the retry loop: after `iters` failed attempts, cut (unwinding assertion)
         count = [0]
         real_extract = h.hkdf_extract
